@@ -11,6 +11,7 @@ import WzVerif.Lemmas.Http
 import WzVerif.Lemmas.HttpOpt3
 import WzVerif.Lemmas.HttpEtag
 import WzVerif.Lemmas.HttpAuth
+import WzVerif.Lemmas.HttpDigest
 import WzVerif.Lemmas.HttpCsp
 import WzVerif.Lemmas.DateText
 import WzVerif.Lemmas.IfRange
@@ -486,6 +487,24 @@ theorem www_param_roundtrip (t : Str) (x : Str × Option Str) (d : Dict (Option 
 
 example : SchemeOk "basic1".toList = true ∧ ("basic1".toList == "digest".toList) = false := by decide
 
+/-- `WWW-Authenticate: Digest ...`: `to_header` always quotes `realm`, `domain`, `nonce`, `opaque`,
+`qop` (generated literal set) and quotes the other values on demand; `from_header` returns the same
+parameters for every non-empty dict of distinct token keys without `*` and string values -/
+theorem www_digest_roundtrip (x : Str × Str) (d : List (Str × Str))
+    (hk : ∀ y ∈ x :: d, KeyOk y.1 = true) (hnd : ((x :: d).map (·.1)).Nodup) :
+    (wwwToHeader ⟨"digest".toList, (x :: d).map (fun kv => (kv.1, some kv.2)), none⟩ >>= wwwFromHeader)
+      = .ok (some ⟨"digest".toList, (x :: d).map (fun kv => (kv.1, some kv.2)), none⟩) :=
+  www_digest_roundtrip_any x d hk hnd
+
+example : (wwwToHeader ⟨"digest".toList, [("realm".toList, some "a".toList), ("algorithm".toList, some "MD5".toList),
+      ("nonce".toList, some "x y\"".toList)], none⟩)
+    = .ok "Digest realm=\"a\", algorithm=MD5, nonce=\"x y\\\"\"".toList := by decide
+
+/-- the digest dumper writes a `None` value as the text `None` -/
+theorem www_digest_roundtrip_needs_values :
+    (wwwToHeader ⟨"digest".toList, [("realm".toList, none)], none⟩ >>= wwwFromHeader)
+      ≠ .ok (some ⟨"digest".toList, [("realm".toList, none)], none⟩) := by decide
+
 /-- an empty parameter dict serialises to a bare scheme, which reads back as an empty token -/
 theorem param_auth_roundtrip_needs_nonempty :
     (authorizationToHeader ⟨"digest".toList, [], none⟩ >>= authorizationFromHeader)
@@ -595,6 +614,20 @@ theorem parseOptions_normal_form (h : Str) (opts : List (Str × Str)) (hh : HdrO
   rw [parseOptions_dump_any h opts hh hk hv hnd]
   simp only [ok_bind]
   exact parseOptions_dump_any h opts hh hk hv hnd
+
+/-- for *arbitrary* header text `parse_options_header` is **not** a normal form: a parameter name
+that still ends in `*` after the RFC 2231 marker was removed (`a**`) is re-read as a marker ... -/
+theorem parseOptions_normal_form_arbitrary_false_star :
+    (parseOptionsHeader "x; a**=b".toList >>= fun r =>
+        dumpOptionsHeader (some r.1) (r.2.map fun kv => (kv.1, some kv.2)) >>= parseOptionsHeader)
+      ≠ parseOptionsHeader "x; a**=b".toList := by decide
+
+/-- ... and a percent-decoded value may contain the literal `%22`, which the quoted form turns
+into `"` (both outside the domain of `parseOptions_dump`, by its `_needs_` witnesses) -/
+theorem parseOptions_normal_form_arbitrary_false_pct22 :
+    (parseOptionsHeader "x; k*=utf-8''a%20%2522".toList >>= fun r =>
+        dumpOptionsHeader (some r.1) (r.2.map fun kv => (kv.1, some kv.2)) >>= parseOptionsHeader)
+      ≠ parseOptionsHeader "x; k*=utf-8''a%20%2522".toList := by decide +kernel
 
 theorem etags_normal_form (strong weak : List Str)
     (hs : ∀ x ∈ strong, TagOk x = true) (hw : ∀ x ∈ weak, TagOk x = true) :
